@@ -200,6 +200,43 @@ def blank_run(op):
     if op == "p2":
         r["slices"] = []
         r["slice1"] = []
+        r["slices_nv"] = []
+        r["slice1_nv"] = []
+    return r
+
+
+def run_tucker_options(inp, how, skip, tr, modes):
+    """Tucker view functions under their documented options (skip_factor, transpose_factors, modes), on the tuple
+    or on a TuckerTensor passed to the same functions (the wrapper's own methods take no options)."""
+    import tensorly as tl
+    from tensorly import tucker_tensor as tk
+    op = "tucker"
+    r = blank_run(op)
+    exact = [True]
+
+    def T(a):
+        j, ex = jt_exact(a)
+        exact[0] = exact[0] and ex
+        return j
+
+    def mk():
+        return tk.TuckerTensor(fresh(op, inp)) if how == "object" else fresh(op, inp)
+    sk = None if skip < 0 else int(skip)
+    try:
+        if modes:
+            dense = tl.tucker_to_tensor(mk(), skip_factor=sk, transpose_factors=tr, modes=[int(m) for m in modes])
+            r["dense"] = T(dense)
+        else:
+            dense = tl.tucker_to_tensor(mk(), skip_factor=sk, transpose_factors=tr)
+            r["dense"] = T(dense)
+            r["unf"] = [T(tl.tucker_to_unfolded(mk(), m, skip_factor=sk, transpose_factors=tr)) for m in range(np.ndim(dense))]
+            r["vec"] = T(tl.tucker_to_vec(mk(), skip_factor=sk, transpose_factors=tr))
+        r["exact"] = exact[0]
+    except Exception as ex:
+        r2 = blank_run(op)
+        r2["raised"] = True
+        r2["exc"] = "%s: %s" % (type(ex).__name__, str(ex)[:120])
+        return r2
     return r
 
 
@@ -259,6 +296,8 @@ def run_views(op, inp, how):
         if op == "p2":
             r["slices"] = [T(s) for s in api["to_slices"](mk())]
             r["slice1"] = [T(api["to_slice"](mk(), i)) for i in range(len(inp["ps"]))]
+            r["slices_nv"] = [T(s) for s in api["to_slices"](mk(), validate=False)]
+            r["slice1_nv"] = [T(api["to_slice"](mk(), i, validate=False)) for i in range(len(inp["ps"]))]
         r["exact"] = exact[0]
     except Exception as ex:
         r2 = blank_run(op)
